@@ -1026,13 +1026,18 @@ where
                                 }
 
                                 if query_router.query_parser_enabled() {
-                                    // The server is picked when the batch is complete, for all of it.
-                                    let earlier_parse_in_batch = self
-                                        .extended_protocol_data_buffer
-                                        .iter()
-                                        .any(|data| matches!(data, ExtendedProtocolData::Parse { .. }));
+                                    // The server is picked when the batch is complete, for all of it:
+                                    // an earlier Parse, or Bind of a prepared statement, had its say.
+                                    let earlier_statement_in_batch =
+                                        self.extended_protocol_data_buffer.iter().any(|data| {
+                                            matches!(
+                                                data,
+                                                ExtendedProtocolData::Parse { .. }
+                                                    | ExtendedProtocolData::Bind { .. }
+                                            )
+                                        });
                                     let _ = query_router
-                                        .infer_for_batch(&ast, earlier_parse_in_batch);
+                                        .infer_for_batch(&ast, earlier_statement_in_batch);
                                 }
                             }
                             Err(error) => {
